@@ -79,6 +79,9 @@ def explore(ctx, rep, cases, label):
         for d in ex:
             for what, observed, expected, sig in L.oracle_c12(c, d):
                 rep.fail(what, c, observed=dict(execution=d.i, **observed), expected=expected, sig=sig)
+                rep.count("oracle:" + sig["kind"] + (":known" if L.sig_subcontext_teardown_order(dict(sig=sig)) else ""))
+            for e in d.effs:
+                rep.count("eff:" + e.split()[0] + (":" + e.split()[1] if e.startswith("FAck") else ""))
             rep.count("resolution:%s" % ("dep-fail" if d.fail else d.outcome))
             rep.count("tree:%s" % ("sub-contexts" if L.has_sub(d.tree) else "flat" if d.opens else "empty"))
             rep.count("opened:%s" % min(len(d.opens), 5))
@@ -95,6 +98,12 @@ def explore(ctx, rep, cases, label):
     rep.corr(label, len(lits), bad, fails, lambda i: keep[i])
     rep.traces += len(lits) - len(bad)
     return bad or fails
+
+
+def fails_of(c, o):
+    ex, errs = L.derive(c, o)
+    return [(what, dict(execution=d.i, **observed), expected, sig)
+            for d in ex for what, observed, expected, sig in L.oracle_c12(c, d)]
 
 
 def corpus_known(ctx, rep):
@@ -120,13 +129,14 @@ def run(ctx):
         explore(ctx, rep, corpus, "corpus")
     known = corpus_known(ctx, rep)
     r = ctx.sub_rng("gen")
-    cases = [L.gen_case(r) for _ in range(ctx.n(700, 30000))]
+    cases = [L.gen_case(r) for _ in range(ctx.n(1200, 40000))]
     broken = explore(ctx, rep, cases, "main")
     sigs = {"subcontext_teardown_order": L.sig_subcontext_teardown_order}
     unexplained = [f for f in rep.failures if not L.sig_subcontext_teardown_order(f)]
     if (broken or any(not o["ok"] for o in rep.obligations)) and not unexplained:
         r2 = ctx.sub_rng("search")
         explore(ctx, rep, [L.gen_case(r2) for _ in range(ctx.n(3000, 30000))], "search")
+    L.shrink_failures(ctx, rep, fails_of, L.sig_subcontext_teardown_order)
     rep.extra["known_finding_reproduced_by_corpus"] = bool(known.get("subcontext_teardown_order"))
     return rep.finish(sigs, known)
 
